@@ -176,6 +176,14 @@ def resolve_unwindset(job):
         path = f if os.path.isabs(f) else os.path.normpath(os.path.join(KANI_DIR, f))
         fn = enclosing_fn(path, line)
         for fsub, fname, bound in spec:
+            if fsub.startswith("id:"):
+                # monomorphised std loops (Iterator::any/try_fold/extend instantiated with a closure of the
+                # function under test) are told apart by the closure's path inside the mangled loop id
+                if fsub[3:] in lid:
+                    chosen.append("%s:%d" % (lid, bound))
+                    notes.append("%s=%d" % (lid[-60:], bound))
+                    break
+                continue
             if fsub in path and (fname == "*" or fname == fn):
                 chosen.append("%s:%d" % (lid, bound))
                 notes.append("%s@%s:%d=%d" % (fn, os.path.basename(path), line, bound))
@@ -185,7 +193,7 @@ def resolve_unwindset(job):
 
 # --------------------------------------------------------------------------- run one harness
 
-CHECK_RE = re.compile(r"^Check (\d+): (\S+)\n\t - Status: (\S+)\n\t - Description: \"(.*)\"\n(?:\t - Location: (.*)\n)?",
+CHECK_RE = re.compile(r"^Check (\d+): (.+)\n\t - Status: (\S+)\n\t - Description: \"(.*)\"\n(?:\t - Location: (.*)\n)?",
                       re.M)
 
 
